@@ -1,6 +1,7 @@
 package main
 
 import (
+	"os"
 	"fmt"
 	"go/types"
 	"sort"
@@ -95,6 +96,12 @@ func (fc *FnCtx) generateOnce(res *FuncResult) *Frame {
 		fc.assume(st, fc.allocInv(t, fv.Type(), st.nextID, 0))
 		fc.assume(st, tNot(mk(fmt.Sprintf("(is_PNull %s)", t.S), SBool, nil)))
 	}
+	if spec != nil && len(spec.MustCalls) > 0 {
+		fc.registerComp(compMustCall, arraySort(SPtr, SBool))
+		for site := range spec.MustCalls {
+			fc.assume(st, tNot(tSel(fc.comp(st, compMustCall), mustCallKey(site), SBool, nil)))
+		}
+	}
 	fc.packageAxioms(st, pkgName)
 	entry := st.clone()
 	fr.entry = entry
@@ -171,11 +178,24 @@ func (fc *FnCtx) generateOnce(res *FuncResult) *Frame {
 				}
 			}
 		}
+		// ensureslocal clauses see the CURRENT values of (possibly reassigned) parameters, like
+		// any other local; exported postconditions see their entry values
+		postLocal := &Env{fc: fc, fr: fr, st: exit, old: entry, vars: map[string]Term{}, pkgName: pkgName}
+		for k, v := range post.vars {
+			if _, isParam := vars[k]; isParam && fr.allocByName(k, nil) != nil {
+				continue
+			}
+			postLocal.vars[k] = v
+		}
 		for k, e := range append(append([]Clause(nil), spec.EnsuresLocal...), spec.Ensures...) {
 			if spec.Flags["splitreturns"] != "" && len(fr.rets) > 1 {
 				break
 			}
-			t, err := fc.evalGoal(post, e)
+			penv := post
+			if k < len(spec.EnsuresLocal) {
+				penv = postLocal
+			}
+			t, err := fc.evalGoal(penv, e)
 			if err != nil {
 				res.Mismatch = append(res.Mismatch, fmt.Sprintf("ensures %d: %v", k+1, err))
 				continue
@@ -185,6 +205,38 @@ func (fc *FnCtx) generateOnce(res *FuncResult) *Frame {
 				name = "post." + e.Label
 			}
 			fc.addObligation(exit, "postcondition", name, t, fn.Pos(), e.Src)
+		}
+		if os.Getenv("GOVC_DEBUG") != "" {
+			fmt.Fprintf(os.Stderr, "DEBUG mustcalls of %s: %d\n", spec.Name, len(spec.MustCalls))
+		}
+		if len(spec.MustCalls) > 0 {
+			// typestate "must call": at the (merged) exit the marker of the site is set whenever the
+			// clause's condition held at entry
+			fc.registerComp(compMustCall, arraySort(SPtr, SBool))
+			var sites []string
+			for site := range spec.MustCalls {
+				sites = append(sites, site)
+			}
+			sort.Strings(sites)
+			for _, site := range sites {
+				for k, cl := range spec.MustCalls[site] {
+					env0 := &Env{fc: fc, fr: fr, st: entry, old: entry, vars: vars, pkgName: pkgName}
+					cond, err := fc.evalClause(env0, cl)
+					if err != nil {
+						res.Mismatch = append(res.Mismatch, fmt.Sprintf("mustcall %s: %v", site, err))
+						continue
+					}
+					called := tSel(fc.comp(exit, compMustCall), mustCallKey(site), SBool, nil)
+					if os.Getenv("GOVC_DEBUG") != "" {
+						fmt.Fprintf(os.Stderr, "DEBUG mustcall %s cond=%s called=%s\n", site, cond.S, called.S)
+					}
+					name := fmt.Sprintf("mustcall.%s.%d", site, k+1)
+					if cl.Label != "" {
+						name = fmt.Sprintf("mustcall.%s.%s", site, cl.Label)
+					}
+					fc.addObligation(exit, "typestate", name, tImp(cond, called), fn.Pos(), "on every return: "+cl.Src+" ==> "+site+" was called")
+				}
+			}
 		}
 		if spec.HasMod {
 			fc.checkFrame(exit, spec)
